@@ -129,10 +129,10 @@ def run(ctx):
                     and S.show(rem[0].args[1]).startswith('io_loop::io_loop_handle::IoLoopHandle::channel_id(') and '.Err.0.SendError.0.Ok.0' in S.show(rem[0].args[1]), site,
                     built=[S.show(e.term)[-200:] for e in rem], expected='on Err(SendError(Ok(handle))): chan_slots.remove(handle.channel_id())')
         # factory closure: ChannelSlot::new(bound, id); register(slot.rx, Token(id as usize), readable, edge)
-        regs = [x for x in panics.registrations(ctx) if x[0] == fnp]
-        reg = [x for x in regs if x[1] == 'register']
-        r.check('factory:registers-under-token-id', len(reg) == 1 and reg[0][2] == 'mio::Token((new_channel_id as usize))' and H.term(reg[0][3]['args'][0]) == 'slot.rx', site,
-                built=[(x[1], x[2], H.term(x[3]['args'][0])) for x in regs], expected="register(&slot.rx, Token(new_channel_id as usize), ..)")
+        reg = [e for e in events if e.kind == 'call' and e.callee == 'mio::Poll::register']
+        SLOT_RX = 'io_loop::ChannelSlot::new(self.mio_channel_bound, $c0).0.rx'
+        r.check('factory:registers-under-token-id', len(reg) == 1 and S.show(reg[0].args[2]) == 'mio::Token(($c0 as usize))' and S.show(reg[0].args[1]) == SLOT_RX, site,
+                built=[[S.show(a) for a in e.args[1:3]] for e in reg], expected="register(&slot.rx, Token(new_channel_id as usize), ..) for the slot made for that id")
         mk = [e for e in events if e.kind == 'call' and e.callee == 'io_loop::ChannelSlot::new']
         r.check('factory:slot-for-that-id', mk and all(S.show(e.args[0]) == 'self.mio_channel_bound' and S.show(e.args[1]) == '$c0' for e in mk), site, built=[S.show(e.term) for e in mk])
 
